@@ -1119,6 +1119,10 @@ impl CanonicalizeContext {
 					handle_convert_to_mmultiscripts(&mut children);
 				} else if element_name == "msub" || element_name == "msup" || 
 						  element_name == "msubsup" || element_name == "mmultiscripts"{
+					if children.is_empty() {
+						// every child was removed (e.g. an mmultiscripts holding only an <mphantom>): nothing left to script
+						return if parent_requires_child {Some( CanonicalizeContext::create_empty_element(&mathml.document()) )} else {None};
+					}
 					if element_name != "mmultiscripts" {
 						// mhchem emits some cases that boil down to a completely empty script -- see test mhchem_beta_decay
 						let mut is_empty_script = CanonicalizeContext::is_empty_element(as_element(children[0])) &&
@@ -1443,10 +1447,6 @@ impl CanonicalizeContext {
 			let mut mathml = mathml;
 			let children = mathml.children();
 			let n = children.len();
-			if n == 0 {
-				// every child was removed (e.g. only an <mphantom>): nothing left to script
-				return Some( CanonicalizeContext::create_empty_element(&mathml.document()) );
-			}
 			let i_mprescripts =
 				if let Some((i,_)) = children.iter().enumerate()
 					.find(|(_,&el)| name(&as_element(el)) == "mprescripts") { i } else { n };
